@@ -1,2 +1,191 @@
-(* C02 — placeholder *)
-From HC Require Import Base.
+(* C02 — a crash between any two storage operations recovers to the before-or-after state (pinned statements,
+   generated from the types Coq reports for the lemmas of Crash.v; see also props/C08.v for the bitfield and
+   contiguous-length replay and props/C01.v for the journal order of an append).
+   Proved at the level of the oplog FILE CONTENT and Oplog::open (crc_ok cr: the CRC fits 32 bits — no other
+   assumption on the checksum): in a stable state `good` (both slots valid or one invalid, entries carrying the
+   current entry bit), for an APPEND of one entry, a FLUSH (header into the non-current slot, then truncate) and
+   MAKE_READ_ONLY (slot, truncate, slot, truncate), EVERY cut point of the operation's storage journal reopens to
+   exactly the (header, entries) before the operation or exactly the one after it; after the last operation the
+   state is stable again (so the argument iterates); the entries of the previous epoch are never replayed
+   (their header bit differs) and are cut off by open; in make_read_only the entries are gone before the second
+   slot is rewritten (the repaired defect D20, with the counterfactual showing the old entries would reappear);
+   creation: a crash before the truncate leaves storage that open reports as empty (the before state).
+   Partial: the tree store, bitfield store and data store are not part of these theorems (replay insensitivity
+   of the tree is argued in DESIGN 5.1; the bitfield part is C08_replay_exact); the composition with
+   Hypercore::new over all four stores is decided on every run by tools/c02.py, which recovers every crash
+   point of every generated history on the crate and on the model under the before-or-after oracle. *)
+From HC Require Import Base NMap Codec CodecFacts Crypto Storage Bitfield Oplog OplogFacts StorageFacts Crash.
+
+Theorem C02_stable_state_reopens :
+  forall cr : crypto,
+         crc_ok cr ->
+         forall (s0 s1 body : bytes) (st0 st1 : slot_state) (bits : bool * bool) (hc : header) (l : list entry),
+         good cr s0 s1 body st0 st1 bits hc l ->
+         oplog_open cr None (s0 ++ s1 ++ body) = Ok (stable_result bits hc l).
+Proof. exact good_open. Qed.
+
+Theorem C02_append_every_cut :
+  forall cr : crypto,
+         crc_ok cr ->
+         forall (s0 s1 body : bytes) (st0 st1 : slot_state) (bits : bool * bool) (hc : header) 
+           (l : list entry) (e : entry) (o' : oplog) (ops : list sop),
+         good cr s0 s1 body st0 st1 bits hc l ->
+         entry_ok e = true ->
+         oplog_append cr (oo_oplog (stable_result bits hc l)) e = Ok (o', ops) ->
+         let c := s0 ++ s1 ++ body in
+         exists fr : bytes,
+           ops = [SW Oplog (len c) fr] /\
+           oplog_open cr None c = Ok (stable_result bits hc l) /\
+           c_write c (len c) fr = s0 ++ s1 ++ body ++ fr /\
+           good cr s0 s1 (body ++ fr) st0 st1 bits hc (l ++ [e]) /\
+           oplog_open cr None (c_write c (len c) fr) = Ok (stable_result bits hc (l ++ [e])) /\
+           o' = oo_oplog (stable_result bits hc (l ++ [e])) /\
+           (forall t : nat,
+            (t < Datatypes.length fr)%nat ->
+            oplog_open cr None (c_write c (len c) (firstn t fr)) =
+            Ok
+              {|
+                oo_oplog := oo_oplog (stable_result bits hc l);
+                oo_header := hc;
+                oo_ops := if 0 <? N.of_nat t then [ST Oplog (len c)] else [];
+                oo_entries := l
+              |} /\ c_truncate (c_write c (len c) (firstn t fr)) (len c) = c).
+Proof. exact append_crash. Qed.
+
+Theorem C02_flush_every_cut :
+  forall cr : crypto,
+         crc_ok cr ->
+         forall (s0 s1 body : bytes) (st0 st1 : slot_state) (bits : bool * bool) (hc : header) 
+           (l : list entry) (hn : header) (o o' : oplog) (ops : list sop),
+         good cr s0 s1 body st0 st1 bits hc l ->
+         header_ok hn = true ->
+         hdr_fits false hn ->
+         ol_bits o = bits ->
+         oplog_flush cr o hn false = Ok (o', ops) ->
+         let c := s0 ++ s1 ++ body in
+         exists (w : sop) (s0' s1' : list N) (st0' st1' : slot_state),
+           ops = [w; ST Oplog (ENTRIES_OFFSET + 0)] /\
+           oplog_open cr None c = Ok (stable_result bits hc l) /\
+           c_apply c w = Some (s0' ++ s1' ++ body) /\
+           oplog_open cr None (s0' ++ s1' ++ body) =
+           Ok
+             {|
+               oo_oplog := {| ol_bits := ol_bits o'; ol_entries_len := 0; ol_entries_bytes := 0 |};
+               oo_header := hn;
+               oo_ops := if 0 <? len body then [ST Oplog ENTRIES_OFFSET] else [];
+               oo_entries := []
+             |} /\
+           c_apply (s0' ++ s1' ++ body) (ST Oplog (ENTRIES_OFFSET + 0)) = Some (s0' ++ s1' ++ []) /\
+           good cr s0' s1' [] st0' st1' (ol_bits o') hn [] /\
+           oplog_open cr None (s0' ++ s1' ++ []) = Ok (stable_result (ol_bits o') hn []) /\
+           o' = oo_oplog (stable_result (ol_bits o') hn []).
+Proof. exact flush_crash. Qed.
+
+Theorem C02_make_read_only_every_cut :
+  forall cr : crypto,
+         crc_ok cr ->
+         forall (s0 s1 body : bytes) (st0 st1 : slot_state) (bits : bool * bool) (hc : header) 
+           (l : list entry) (hn : header) (o o' : oplog) (ops : list sop),
+         good cr s0 s1 body st0 st1 bits hc l ->
+         header_ok hn = true ->
+         ol_bits o = bits ->
+         oplog_flush cr o hn true = Ok (o', ops) ->
+         let c := s0 ++ s1 ++ body in
+         let T := ST Oplog (ENTRIES_OFFSET + 0) in
+         exists
+           (w1 w2 : sop) (a0 a1 : list N) (sa0 sa1 : slot_state) (bits1 : bool * bool) 
+         (b0 b1 : list N) (sb0 sb1 : slot_state),
+           ops = [w1; T; w2; T] /\
+           oplog_open cr None c = Ok (stable_result bits hc l) /\
+           c_apply c w1 = Some (a0 ++ a1 ++ body) /\
+           oplog_open cr None (a0 ++ a1 ++ body) =
+           Ok
+             {|
+               oo_oplog := {| ol_bits := bits1; ol_entries_len := 0; ol_entries_bytes := 0 |};
+               oo_header := hn;
+               oo_ops := if 0 <? len body then [ST Oplog ENTRIES_OFFSET] else [];
+               oo_entries := []
+             |} /\
+           c_apply (a0 ++ a1 ++ body) T = Some (a0 ++ a1 ++ []) /\
+           good cr a0 a1 [] sa0 sa1 bits1 hn [] /\
+           oplog_open cr None (a0 ++ a1 ++ []) = Ok (stable_result bits1 hn []) /\
+           c_apply (a0 ++ a1 ++ []) w2 = Some (b0 ++ b1 ++ []) /\
+           good cr b0 b1 [] sb0 sb1 (ol_bits o') hn [] /\
+           oplog_open cr None (b0 ++ b1 ++ []) = Ok (stable_result (ol_bits o') hn []) /\
+           (exists b b' : bool, sb0 = SValid hn b /\ sb1 = SValid hn b') /\
+           c_apply (b0 ++ b1 ++ []) T = Some (b0 ++ b1 ++ []) /\
+           o' = oo_oplog (stable_result (ol_bits o') hn []) /\
+           (exists x0 x1 : list N,
+              c_apply (a0 ++ a1 ++ body) w2 = Some (x0 ++ x1 ++ body) /\
+              oplog_open cr None (x0 ++ x1 ++ body) = Ok (stable_result (ol_bits o') hn l)).
+Proof. exact read_only_crash. Qed.
+
+Theorem C02_entries_gone_before_second_slot :
+  forall cr : crypto,
+         crc_ok cr ->
+         forall (s0 s1 body : bytes) (st0 st1 : slot_state) (bits : bool * bool) (hc : header) 
+           (l : list entry) (hn : header) (o o' : oplog) (ops : list sop) (c2 : bytes),
+         good cr s0 s1 body st0 st1 bits hc l ->
+         header_ok hn = true ->
+         ol_bits o = bits ->
+         oplog_flush cr o hn true = Ok (o', ops) ->
+         c_apply_all (s0 ++ s1 ++ body) (firstn 2 ops) = Some c2 ->
+         len c2 = ENTRIES_OFFSET /\
+         (exists (w2 : sop) (c3 : bytes),
+            nth_error ops 2 = Some w2 /\
+            c_apply c2 w2 = Some c3 /\ oplog_open cr None c3 = Ok (stable_result (ol_bits o') hn [])).
+Proof. exact second_slot_write_sees_no_entries. Qed.
+
+Theorem C02_creation_every_cut :
+  forall cr : crypto,
+         crc_ok cr ->
+         forall kp : keypair,
+         keypair_ok kp = true ->
+         exists (buf : bytes) (s0 : list N),
+           oplog_fresh cr kp =
+           Ok
+             ({| ol_bits := (false, false); ol_entries_len := 0; ol_entries_bytes := 0 |}, 
+              header_new kp, [SW Oplog 0 buf; ST Oplog (ENTRIES_OFFSET + 0)]) /\
+           (forall t : nat, oplog_open cr None (c_write [] 0 (firstn t buf)) = Err EmptyStorage) /\
+           oplog_open cr None (c_write [] 0 buf) = Err EmptyStorage /\
+           c_apply_all [] [SW Oplog 0 buf; ST Oplog (ENTRIES_OFFSET + 0)] = Some (s0 ++ zeros SLOT ++ []) /\
+           good cr s0 (zeros SLOT) [] (SValid (header_new kp) false) SInvalid (false, false) (header_new kp) [] /\
+           slot_dead cr (zeros SLOT) /\
+           oplog_open cr None (s0 ++ zeros SLOT ++ []) = Ok (stable_result (false, false) (header_new kp) []).
+Proof. exact oplog_fresh_then_open. Qed.
+
+Theorem C02_open_reads_layout :
+  forall cr : crypto,
+         crc_ok cr ->
+         forall (s0 s1 body : bytes) (h0 h1 : header) (b0 b1 : bool) (l : list (entry * bool)) (rest : bytes),
+         header_ok h0 = true ->
+         header_ok h1 = true ->
+         slot_holds cr s0 h0 b0 ->
+         slot_holds cr s1 h1 b1 ->
+         body_holds cr (xorb b0 b1) l rest body ->
+         oplog_open cr None (s0 ++ s1 ++ body) =
+         Ok (open_result (b0, b1) (if eqb b0 b1 then h0 else h1) l (ENTRIES_OFFSET + len body)).
+Proof. exact open_two_slots. Qed.
+
+Theorem C02_content_model_is_the_file :
+  forall (ops : list sop) (d d' : disk) (c' : bytes),
+         Forall (fun o : sop => sop_store o = Oplog) ops ->
+         apply_sops d ops = Some d' ->
+         c_apply_all (f_content (d_oplog d)) ops = Some c' -> f_content (d_oplog d') = c'.
+Proof. exact c_apply_all_sound. Qed.
+
+Theorem C02_real_headers_fit_a_slot :
+  forall h : header,
+         header_ok h = true ->
+         len (ht_root_hash (hd_tree h)) <= 32 -> len (ht_signature (hd_tree h)) <= 64 -> hdr_fits false h.
+Proof. exact hdr_fits_real. Qed.
+
+Print Assumptions C02_stable_state_reopens.
+Print Assumptions C02_append_every_cut.
+Print Assumptions C02_flush_every_cut.
+Print Assumptions C02_make_read_only_every_cut.
+Print Assumptions C02_entries_gone_before_second_slot.
+Print Assumptions C02_creation_every_cut.
+Print Assumptions C02_open_reads_layout.
+Print Assumptions C02_content_model_is_the_file.
+Print Assumptions C02_real_headers_fit_a_slot.
